@@ -13,6 +13,14 @@ CLAIMED = {
              note='Assume/guarantee along the real call graph; fallback to bit-precise end-to-end execution if a callee assumption is not implied. No bound (constant trip counts).', technique='compositional symbolic execution of LLVM IR + z3 (linear arithmetic over shared product atoms, NIA for leaf contracts)', ref='4/C13'),
  'C14': dict(text='Same as C13 for the AVX512 kernels on two interleaved states; the precondition "second operand canonical" of add_avx512_b_c is a proof obligation at each call site, which is how defect D8 was found (fixed in /repo).',
              note='As C13; build configuration -mavx512f -D__AVX512__.', technique='compositional symbolic execution of LLVM IR + z3', ref='4/C14'),
+ 'C03': dict(text='The real constructor, NTT, NTT_iters, reversePermutation, parcpy and destructor are executed symbolically at field level (words = residue classes, Goldilocks::add/sub/mul replaced by their contracts, which are re-proved bit-precisely in the same run); nphase and nblock are symbolic 64-bit values whose clamping classes the solver proves exhaustive; every output word is proved congruent to the DFT definition by z3; aborts, faults, leaks and source modification are violations; counterexamples replay on the native build in a forked process.',
+             note='Bounded: object 2^s, s<=4 (thorough 7); n=2^d<=2^s and size 0; ncols 0..3 (4); all dst/buffer modes. Above the bound nothing is claimed. Sequential semantics (C12 covers parallel).', technique='field-level symbolic execution of clang LLVM IR over proved leaf contracts + z3 congruences on the Z-lift', ref='4/C03'),
+ 'C04': dict(text='Same machinery as C03 for INTT against the inverse-DFT definition, plus composed round trips INTT(NTT(x)) and NTT(INTT(x)) with independent symbolic nphase/nblock per direction.',
+             note='Same bounds as C03; round trips n<=8 (16).', technique='field-level symbolic execution of LLVM IR + z3', ref='4/C04'),
+ 'C05': dict(text='extendPol (with the nested extension object, computeR, zero-padding bit reversal in and out of place) executed symbolically at field level; every output word proved congruent to f_c(7*w_Next^k) where f_c interpolates the input, for symbolic nphase/nblock.',
+             note='Bounded: N<=N_ext<=16 (thorough 128), ncols 1..3 (4), in place or distinct, buffer NULL or caller.', technique='field-level symbolic execution of LLVM IR + z3', ref='4/C05'),
+ 'C19': dict(text='Inductive argument over call histories: frame assertion after every call (constructor-time fields unchanged; r/r_ NULL or the tables of some size), and from every reachable state class each of NTT/INTT/extendPol with symbolic data and symbolic nphase/nblock returns what a fresh object returns (oracles of C03-C05).',
+             note='Bounded: object domain 2^s, s<=3 (thorough 5), ncols 1..2 (3). The induction covers histories of any length inside the bound.', technique='one inductive step per (state class, method) by field-level symbolic execution + z3', ref='4/C19'),
 }
 def main():
     props = [json.loads(l) for l in open(os.path.join(V, 'properties.jsonl'))]
